@@ -10,6 +10,7 @@ mod asyncsel;
 mod files;
 mod pkggen;
 mod md;
+mod backends;
 
 fn main() {
     let engine = std::env::args().nth(1).expect("engine");
@@ -18,6 +19,7 @@ fn main() {
         "files" => files::handle,
         "pkggen" => pkggen::handle,
         "md" => md::handle,
+        "backends" => backends::handle,
         other => panic!("unknown engine {other}"),
     };
     // generators panic on purpose on some inputs; keep stderr quiet, the answer says `panic`
